@@ -472,3 +472,82 @@ func madeSliceRange(x ssa.Value, ptrBits int) (ival, bool) {
 	}
 	return j, okAll
 }
+
+var mapLeafMemo = map[*ssa.Global]*ival{}
+
+// mapLeafRange: join of zero and the constant VALUES of the map literal that
+// initialises g, provided repository code outside the package initialiser
+// only reads the map (lookups, len, range) and never passes it on.
+func mapLeafRange(g *ssa.Global) (ival, bool) {
+	if r, ok := mapLeafMemo[g]; ok {
+		if r == nil {
+			return fullRange(), false
+		}
+		return *r, true
+	}
+	mapLeafMemo[g] = nil
+	if gL == nil || g.Pkg == nil {
+		return fullRange(), false
+	}
+	p := gL.ByPath[g.Pkg.Pkg.Path()]
+	lit := globalInitLit(g)
+	if p == nil || lit == nil {
+		return fullRange(), false
+	}
+	j := ival{lo: 0, hi: 0}
+	for _, el := range lit.Elts {
+		kv, ok := el.(*ast.KeyValueExpr)
+		if !ok {
+			return fullRange(), false
+		}
+		tv, ok := p.TypesInfo.Types[kv.Value]
+		if !ok || tv.Value == nil || tv.Value.Kind() != constant.Int {
+			return fullRange(), false
+		}
+		k, exact := constant.Int64Val(tv.Value)
+		if !exact {
+			return fullRange(), false
+		}
+		if k < j.lo {
+			j.lo = k
+		}
+		if k > j.hi {
+			j.hi = k
+		}
+	}
+	for _, fn := range gL.RepoFuncs(nil) {
+		if fn.Synthetic != "" && fn.Name() == "init" {
+			continue
+		}
+		bad := false
+		eachInstr(fn, func(ins ssa.Instruction) {
+			var ops []*ssa.Value
+			for _, op := range ins.Operands(ops) {
+				if op == nil || *op != ssa.Value(g) {
+					continue
+				}
+				u, ok := ins.(*ssa.UnOp)
+				if !ok || u.Op != token.MUL || u.Referrers() == nil {
+					bad = true
+					continue
+				}
+				for _, r := range *u.Referrers() {
+					switch x := r.(type) {
+					case *ssa.Lookup, *ssa.Range, *ssa.DebugRef:
+					case ssa.CallInstruction:
+						if bi, ok := x.Common().Value.(*ssa.Builtin); !ok || bi.Name() != "len" {
+							bad = true
+						}
+					default:
+						bad = true
+					}
+				}
+			}
+		})
+		if bad {
+			return fullRange(), false
+		}
+	}
+	mapLeafMemo[g] = &j
+	return j, true
+}
